@@ -1,3 +1,4 @@
+pub mod c01;
 pub mod c02;
 pub mod c03;
 pub mod c04;
@@ -70,6 +71,7 @@ pub fn finish(
 /// dispatch table: property id -> (run, replay)
 pub fn dispatch(id: &str) -> Option<(fn(Tier) -> i32, fn(&Value) -> String)> {
     match id {
+        "C01" => Some((c01::run, c01::replay)),
         "C02" => Some((c02::run, common::replay_lockstep)),
         "C03" => Some((c03::run, c03::replay)),
         "C04" => Some((c04::run, c04::replay)),
